@@ -393,6 +393,9 @@ def invoke(model, kind, call, names, ci):
         from cobra.sampling import OptGPSampler
         s = OptGPSampler(model, thinning=call["thin"], processes=P, seed=call["seed"])
         df = s.sample(call["n"])
+        for _ in range(call.get("rounds", 1) - 1):      # further calls on the same sampler object
+            import pandas as pd
+            df = pd.concat([df, s.sample(call["n"])], ignore_index=True)
         vals = np.asarray(df.values, dtype=float)
         cols_ok = [str(c) for c in df.columns] == [r.id for r in model.reactions]
         w = np.asarray(s.warmup, dtype=float)       # warm-up geometry: root-cause tag of F66
